@@ -544,7 +544,7 @@ def mi1(ctx):
                       'MultiRecord::next can report the end of the batch before the buffer is exhausted (records silently dropped)')
 
 
-@rule('MI2', ['C10', 'C08'], floor=3, template='loop-progress')
+@rule('MI2', ['C10', 'C08', 'C12'], floor=3, template='loop-progress')
 def mi2(ctx):
     """Every consumer of the crate iterator stops at its first error."""
     n = 0
@@ -588,6 +588,14 @@ def mi2(ctx):
             bad = [s for s in err_starts if cs.point in b.reach([s])]
             ctx.check(not bad, key, where(b, cs.point), 'an Err item leaves the loop',
                       'the loop keeps iterating after the batch iterator yielded an error (next() rewinds on error: this can cycle forever)')
+            # a VALIDATOR (a body that answers Result<MultiRecord, _>: `MultiRecord::new`) rejects the batch as a whole:
+            # from an Err item no successful return is reachable ("keep the sound prefix" exposes a batch with its tail
+            # missing -- C12 -- built from bytes that are known to be damaged -- C08)
+            if b.ret_ty.startswith('std::result::Result<record::MultiRecord<'):
+                oks = [e['point'] for e in b.exits() if e['kind'] == 'ok']
+                leak = [s for s in err_starts if any(o in b.reach([s]) for o in oks)]
+                ctx.check(not leak, '%s:validator-all-or-nothing' % b.path, where(b, cs.point), 'an Err item makes the validator answer Err',
+                          'the batch validator can answer Ok after the iterator yielded an error (a prefix of a damaged batch is accepted): the batch would be recovered with its tail missing')
     if n == 0:
         ctx.missing('consumers', 'no loop over MultiRecord found')
 
